@@ -94,6 +94,18 @@ func H_C16_entry() {
 	e1 := NewEntry(vStr("dn"), m)
 	vPermute("perm")
 	e2 := NewEntry(vStr("dn"), m)
+	if !vIsEngine() {
+		// natively the map's iteration order is the runtime's (random) choice: repeat the call so
+		// that a dependence on it shows up reliably when a finding is replayed
+		for k := 0; k < 32; k++ {
+			e3 := NewEntry("dn", m)
+			for i := 0; i < len(e1.Attributes) && i < len(e3.Attributes); i++ {
+				if e1.Attributes[i].Name != e3.Attributes[i].Name {
+					e2 = e3
+				}
+			}
+		}
+	}
 	vAssert(len(e1.Attributes) == n && len(e2.Attributes) == n, "all attributes present")
 	for i := 0; i < len(e1.Attributes) && i < len(e2.Attributes); i++ {
 		vAssert(e1.Attributes[i].Name == e2.Attributes[i].Name, "same order on every call")
